@@ -249,7 +249,12 @@ class BuiltinsMixin:
                 else:
                     raise Unsupported(f"isinstance({a.ty}, {nm})")
             else:
-                sv = self.ev(n, fr)
+                try:
+                    sv = self.ev(n, fr)
+                except Unsupported:
+                    if not getattr(n, "spec_class_name", False):
+                        raise
+                    sv = SV(None, Ty("ext"), ("ext", nm))
                 if not (sv.meta and sv.meta[0] == "class") and getattr(n, "spec_class_name", False):
                     # class named in a spec string (is_instance(x, 'Cls')): resolved through the repository index, not through the
                     # imports of the module the function lives in
